@@ -143,9 +143,121 @@ fn run_w<const B: usize, const L: usize>(scn: &Obj) -> Value {
             ev.put("detail", Value::Array(trace));
             ev.put("steps_done", Value::from(steps.len() as u64 - 1));
         }
+        "d" => {
+            // implementation -> specification direction for the machine: the DRIVER (not TLC) chooses a history with its
+            // own generator, runs it on the real register file and logs every step; MachineTrace.tla validates the log.
+            let seed = scn["seed"].as_u64().unwrap();
+            let nsteps = scn["steps"].as_u64().unwrap() as usize;
+            let mut rng = XorShift(seed.wrapping_mul(0x9e37_79b9_7f4a_7c15) | 1);
+            let mut regs: Vec<Uint<B, L>> = (0..4).map(|_| seed_value::<B, L>(&mut rng)).collect();
+            let mut steps: Vec<Value> = vec![serde_json::json!({"op": "init", "d": 0, "s1": 0, "s2": 0, "k": 0, "f": false, "pan": false, "regs": regs.clone().to_j()})];
+            let mut n = 0;
+            let mut guard = 0;
+            while n < nsteps && guard < 50 * nsteps {
+                guard += 1;
+                let op = DRIVE_OPS[(rng.next() % DRIVE_OPS.len() as u64) as usize];
+                let (d, s1, s2) = ((rng.next() % 4) as usize, (rng.next() % 4) as usize, (rng.next() % 4) as usize);
+                if matches!(op, "div" | "rem" | "divceil") && regs[s2].is_zero() {
+                    continue;
+                }
+                let k = pick_imm(op, B, &mut rng);
+                let (a, b, m) = (regs[s1], regs[s2], regs[d]);
+                let r = std::panic::catch_unwind(std::panic::AssertUnwindSafe(|| apply(op, a, b, m, k)));
+                n += 1;
+                match r {
+                    Ok((v, f)) => {
+                        regs[d] = v;
+                        // every 7th step feeds a fresh boundary value in, so that histories do not collapse to 0 / MAX
+                        steps.push(serde_json::json!({"op": op, "d": d + 1, "s1": s1 + 1, "s2": s2 + 1, "k": k, "f": f, "pan": false, "regs": regs.clone().to_j()}));
+                    }
+                    Err(_) => {
+                        steps.push(serde_json::json!({"op": op, "d": d + 1, "s1": s1 + 1, "s2": s2 + 1, "k": k, "f": false, "pan": true, "regs": regs.clone().to_j()}));
+                        break;
+                    }
+                }
+            }
+            ev.put("hist", serde_json::json!({"bits": B, "steps": steps}));
+        }
         other => panic!("mach: unknown kind {other:?}"),
     }
     ev.finish()
+}
+
+/// Operations the driver draws from (every action of UintMachine.tla).
+const DRIVE_OPS: &[&str] = &[
+    "wadd", "wsub", "wmul", "sadd", "ssub", "smul", "adiff", "and", "or", "xor", "min", "max", "gcd", "oadd", "osub", "omul", "cmp", "lcm",
+    "div", "rem", "divceil", "wneg", "not", "revbits", "lz", "tz", "popcount", "bitlen", "invring", "npow2", "rt_dec", "rt_hex", "rt_be",
+    "rt_le", "rt_limbs", "via_u64", "shl", "shr", "ashr", "rotl", "rotr", "oshl", "oshr", "pow", "root", "setbit1", "setbit0", "load",
+    "reduce", "addmod", "mulmod", "wto", "sto", "cto", "cnmo", "powmod",
+    // the masking-sensitive ones once more, so that they make up about a third of every history
+    "ashr", "not", "wneg", "rotl", "rotr", "revbits", "shl", "oshl", "wmul", "wsub", "xor", "load", "load", "wto", "sto",
+];
+
+struct XorShift(u64);
+impl XorShift {
+    fn next(&mut self) -> u64 {
+        let mut x = self.0;
+        x ^= x << 13;
+        x ^= x >> 7;
+        x ^= x << 17;
+        self.0 = x;
+        x
+    }
+}
+
+fn seed_value<const B: usize, const L: usize>(rng: &mut XorShift) -> Uint<B, L> {
+    let mut limbs = [0u64; L];
+    match rng.next() % 8 {
+        0 => {}
+        1 => {
+            if L > 0 {
+                limbs[0] = 1;
+            }
+        }
+        2 => return Uint::MAX,
+        3 => return Uint::MAX >> 1,
+        4 => {
+            for l in limbs.iter_mut() {
+                *l = u64::MAX;
+            }
+            if L > 0 {
+                limbs[0] = rng.next();
+            }
+        }
+        5 => {
+            if L > 0 {
+                limbs[L - 1] = rng.next();
+            }
+        }
+        _ => {
+            for l in limbs.iter_mut() {
+                *l = rng.next();
+            }
+        }
+    }
+    if L > 0 {
+        limbs[L - 1] &= Uint::<B, L>::MASK;
+    }
+    if B == 0 {
+        return Uint::ZERO;
+    }
+    Uint::from_limbs(limbs)
+}
+
+/// Immediates: a wider choice than the specification's own `Imms` (the trace specification accepts any immediate).
+fn pick_imm(op: &str, bits: usize, rng: &mut XorShift) -> usize {
+    let r = rng.next();
+    match op {
+        "shl" | "shr" | "ashr" | "rotl" | "rotr" | "oshl" | "oshr" | "setbit1" | "setbit0" => {
+            let c = [0, 1, 7, 63, 64, 65, bits / 2, bits.saturating_sub(1), bits, bits + 1, bits + 64, (bits % 64) + 1, 64 * ((bits + 63) / 64)];
+            if r % 3 == 0 { (r >> 8) as usize % (2 * bits + 70) } else { c[(r >> 8) as usize % c.len()] }
+        }
+        "pow" | "powmod" => (r % 7) as usize,
+        "root" => (r % 4) as usize,
+        "load" => [0usize, 1, 2, 255, 256, 65535, 65536, 0x7fff_ffff][(r % 8) as usize],
+        "wto" | "sto" | "cto" => [1usize, 3, 63, 65, 200][(r % 5) as usize],
+        _ => 0,
+    }
 }
 
 /// expected registers come from the specification: they always fit, but stay defensive
